@@ -53,8 +53,11 @@ type StructField struct {
 // JSONName returns the field name used by Go json package,
 // that is, taking into account the json struct tag.
 func (st StructField) JSONName() string {
-	if name := st.Tag.Get("json"); name != "" {
-		return name
+	if tag := st.Tag.Get("json"); tag != "" {
+		// ignore the options (such as omitempty); an empty name means the Go name
+		if name, _, _ := strings.Cut(tag, ","); name != "" {
+			return name
+		}
 	}
 	return st.Field.Name()
 }
